@@ -18,7 +18,7 @@ LEDGER_RULE = ("ledger stream: per case a fresh canister (network in {regtest x2
                "push a transaction-valid block on a random alive parent (biased to tips / near the anchor; spends of stable and unstable outputs, "
                "same-block spends, re-confirmation of another fork's transaction, zero-value/OP_RETURN/non-standard/oversized scripts, prefix-pair addresses), "
                "ingestion rounds with unlimited or 0-12 step budgets, and query batches (all pages followed with page size 1/2/3/5/1000, every c up to length+2, "
-               "header ranges up to tip+2, fees, fee rates for 1/2/3/5/8/10000 transactions, bookkeeping snapshot, stable digest) with the specification lines ledgerat/bestat/cutat/sumat/feesn, and upgrades at message boundaries (more often while an ingestion is paused). Directed families at fixed case numbers: many-outputs (F11), slice-by-slice ingestion of a multi-transaction block with an observation vector and upgrades at every pause position, depth-bound trees (anchor with 2-3 children carrying short heavy branches and 385-470 (thorough: -700) block light side chains, accumulated difficulties tying about half of the time; the ties mode picks difficulties that make branches tie exactly). "
+               "header ranges up to tip+2, fees, fee rates for 1/2/3/5/8/10000 transactions, bookkeeping snapshot, stable digest) with the specification lines ledgerat/bestat/cutat/sumat/feesn, and upgrades at message boundaries (more often while an ingestion is paused). Directed families at fixed case numbers: many-outputs (F11), slice-by-slice ingestion of a multi-transaction block with an observation vector and upgrades at every pause position, tie shapes (one case per shard: anchor children with exactly equal accumulated difficulty but different numbers of blocks on the heaviest branch and lighter-but-longer side branches), depth-bound trees (anchor with 2-3 children carrying short heavy branches and 385-470 (thorough: -700) block light side chains, accumulated difficulties tying about half of the time; the ties mode picks difficulties that make branches tie exactly). "
                "A case is non-trivial if it pushed >= 3 blocks; distinct by the hash of (network, threshold, mode, parent choices, budgets).")
 
 SYNC_RULE = ("sync stream: per case a fresh regtest canister (threshold 1-4, default or random fee table, manual async mode), then 12-45 (quick) / 30-120 (thorough) "
